@@ -102,7 +102,7 @@ func runAsync(ch *simrt.Chooser, opt Options) RunResult {
 		if width > 40 {
 			exact = width
 		}
-		build := func(list bool) any {
+		build := func(list bool, s drawer) any {
 			if exact == 0 {
 				if list {
 					return genList(s, treeOpts{depth: 2, width: width, spare: true})
@@ -123,21 +123,98 @@ func runAsync(ch *simrt.Chooser, opt Options) RunResult {
 			}
 			return o
 		}
+		// A container reaches an asynchronous call by many routes; the routes differ in what the slots share (NewListOf puts one
+		// value into every slot, a list concatenated with itself holds each element twice, a clone or a sub-list may share
+		// immutable scalars with its source).
+		plainBuild := build
+		build = func(list bool, s drawer) any {
+			c := plainBuild(list, s)
+			route := s.Draw("provenance", 16)
+			if list {
+				l := c.(at.List)
+				switch route {
+				case 0:
+					c = l.Concat(l)
+				case 1:
+					n := l.Count()
+					if n == 0 {
+						n = 3
+					}
+					c = at.NewListOf(genScalar(s), n)
+				case 2:
+					c = l.Clone()
+				case 3:
+					c = l.SubList(0, l.Count())
+				case 4:
+					c = at.NewListFrom(l.Slice())
+				case 5:
+					c = l.Concat(l).SubList(l.Count()/2, l.Count()+l.Count()/2)
+				case 6:
+					c = at.NewList(l.Slice()...)
+				default:
+					return c
+				}
+				res.Counters["provenance:list-route-"+strconv.Itoa(route)]++
+				return c
+			}
+			o := c.(at.Object)
+			switch route {
+			case 0:
+				c = o.Clone()
+			case 1:
+				c = at.NewObjectFrom(o.Dict())
+			case 2:
+				c = o.Merge(at.NewObject())
+			case 3:
+				// the same values under a second set of keys
+				d := at.NewObject()
+				o.ForEach(func(k string, v any) { d.Set(k, v); d.Set(k+"'", v) })
+				c = d
+			default:
+				return c
+			}
+			res.Counters["provenance:object-route-"+strconv.Itoa(route)]++
+			return c
+		}
+		// cold: the container is not read by anybody between its construction and the asynchronous call (what the call's
+		// workers find is exactly what the constructors left: caches not yet filled, lazily initialised parts not yet there).
+		// What it must contain is known from a twin built from the same decisions.
+		cold := s.Draw("cold", 3) == 0
+		rec := &recDrawer{d: s}
 		switch scen {
 		case 0, 1:
-			c := build(scen == 0)
+			c := build(scen == 0, rec)
+			if cold {
+				res.Counters["probe:cold-container"]++
+				twin := build(scen == 0, rec.replayer())
+				doForEachAsync(s, top, c, 1, true)
+				if after, want := canon(c, nil), canon(twin, nil); after != want {
+					top.fail("receiver-changed", asyncScenarios[scen], "ForEachAsync changed its receiver (never read before the call): built as "+short(want, 200)+" -> "+short(after, 200))
+				}
+				break
+			}
 			nm := nameHeap(c)
 			before := canon(c, nm)
 			trace = append(trace, "container "+short(before, 300))
-			doForEachAsync(s, top, c, 1)
+			doForEachAsync(s, top, c, 1, false)
 			if after := canon(c, nm); after != before {
 				top.fail("receiver-changed", asyncScenarios[scen], "ForEachAsync changed its receiver: "+short(before, 200)+" -> "+short(after, 200))
 			}
 		case 2, 3:
-			c := build(scen == 2)
+			c := build(scen == 2, rec)
+			f := s.Draw("pure-fn", len(pureFns))
+			if cold {
+				res.Counters["probe:cold-container"]++
+				twin := build(scen == 2, rec.replayer())
+				trace = append(trace, "fn "+pureFns[f].name)
+				doMapAsync(s, top, c, f, nil)
+				if after, want := canon(c, nil), canon(twin, nil); after != want {
+					top.fail("receiver-changed", asyncScenarios[scen], "MapAsync/Map changed the receiver (never read before the call): built as "+short(want, 200)+" -> "+short(after, 200))
+				}
+				break
+			}
 			nm := nameHeap(c)
 			before := canon(c, nm)
-			f := s.Draw("pure-fn", len(pureFns))
 			trace = append(trace, "container "+short(before, 300), "fn "+pureFns[f].name)
 			doMapAsync(s, top, c, f, nm)
 			if after := canon(c, nm); after != before {
@@ -267,7 +344,7 @@ func checkAsyncHistory(log []simrt.LogEv, call *asyncCall, where string) *Failur
 var callSeq uint64
 
 // doForEachAsync calls ForEachAsync on c (List or Object) with a logging, yielding callback.
-func doForEachAsync(s *simrt.Sim, cl *asyncClient, c any, seq int) {
+func doForEachAsync(s *simrt.Sim, cl *asyncClient, c any, seq int, cold bool) {
 	id := uint64(cl.id)*1000 + uint64(seq)
 	call := &asyncCall{id: id, expected: map[uint64]int{}}
 	reentrant := s.Draw("cb-reentrant", 8) == 0
@@ -296,9 +373,16 @@ func doForEachAsync(s *simrt.Sim, cl *asyncClient, c any, seq int) {
 	switch x := c.(type) {
 	case at.List:
 		call.what = "List.ForEachAsync"
-		call.n = x.Count()
-		for i := 0; i < call.n; i++ {
-			call.expected[fnv(0, uint64(i), digest(x.Get(i)))]++
+		expect := func() {
+			call.n = x.Count()
+			for i := 0; i < call.n; i++ {
+				call.expected[fnv(0, uint64(i), digest(x.Get(i)))]++
+			}
+		}
+		if cold {
+			defer expect() // read only after the call (the caller compares the receiver with its twin)
+		} else {
+			expect()
 		}
 		cl.calls = append(cl.calls, call)
 		cl.ops["List.ForEachAsync"]++
@@ -313,10 +397,17 @@ func doForEachAsync(s *simrt.Sim, cl *asyncClient, c any, seq int) {
 		}
 	case at.Object:
 		call.what = "Object.ForEachAsync"
-		d := x.Dict()
-		call.n = len(d)
-		for k, v := range d {
-			call.expected[fnv(0, hashString(k), digest(v))]++
+		expect := func() {
+			d := x.Dict()
+			call.n = len(d)
+			for k, v := range d {
+				call.expected[fnv(0, hashString(k), digest(v))]++
+			}
+		}
+		if cold {
+			defer expect()
+		} else {
+			expect()
 		}
 		cl.calls = append(cl.calls, call)
 		cl.ops["Object.ForEachAsync"]++
@@ -422,11 +513,35 @@ func doMapAsync(s *simrt.Sim, cl *asyncClient, c any, fn int, nm namer) {
 	}
 	// give other goroutines (if any survive the call) a chance to clobber the result before it is read
 	simrt.Yield()
+	if nm == nil {
+		nm = nameHeap(c)
+	}
 	ca, cb := canon(a, nm), canon(b, nm)
 	if ca != cb {
 		cl.fail("map-differs", where, fmt.Sprintf("fn %s: MapAsync = %s, Map = %s", pf.name, short(ca, 300), short(cb, 300)))
 	}
 }
+
+// recDrawer records the decisions of a generator so that the same structure can be built a second time.
+type recDrawer struct {
+	d   drawer
+	rec []int
+	rep bool
+	pos int
+}
+
+func (r *recDrawer) Draw(label string, n int) int {
+	if r.rep {
+		v := r.rec[r.pos]
+		r.pos++
+		return v
+	}
+	v := r.d.Draw(label, n)
+	r.rec = append(r.rec, v)
+	return v
+}
+
+func (r *recDrawer) replayer() *recDrawer { return &recDrawer{rec: r.rec, rep: true} }
 
 // nameHeap names every container reachable from the roots.
 func nameHeap(roots ...any) namer {
@@ -702,7 +817,7 @@ func init() {
 	lop("Min", func(s S, cl C, l L, c R) any { return l.Min() })
 	lop("IntMax", func(s S, cl C, l L, c R) any { return l.IntMax() })
 	lop("Max", func(s S, cl C, l L, c R) any { return l.Max() })
-	lop("ForEachAsync", func(s S, cl C, l L, c R) any { doForEachAsync(s, cl, l, c.seq); return "done" }).isAsync = true
+	lop("ForEachAsync", func(s S, cl C, l L, c R) any { doForEachAsync(s, cl, l, c.seq, false); return "done" }).isAsync = true
 	lop("MapAsync", func(s S, cl C, l L, c R) any {
 		return l.MapAsync(func(i int, x any) any { yieldSome(s); return pureFns[c.fn].f(strconv.Itoa(i), i, x) })
 	}).isAsync = true
@@ -810,7 +925,7 @@ func init() {
 	oop("MapFloats", func(s S, cl C, o O, c R) any {
 		return o.MapFloats(func(x float64) any { yieldSome(s); return pureFns[c.fn].f("f", 0, x) })
 	})
-	oop("ForEachAsync", func(s S, cl C, o O, c R) any { doForEachAsync(s, cl, o, c.seq); return "done" }).isAsync = true
+	oop("ForEachAsync", func(s S, cl C, o O, c R) any { doForEachAsync(s, cl, o, c.seq, false); return "done" }).isAsync = true
 	oop("MapAsync", func(s S, cl C, o O, c R) any {
 		return o.MapAsync(func(k string, x any) any { yieldSome(s); return pureFns[c.fn].f(k, 0, x) })
 	}).isAsync = true
